@@ -1,0 +1,35 @@
+//go:build verif
+
+package deployment
+
+import (
+	clientset "k8s.io/client-go/kubernetes"
+	appslisters "k8s.io/client-go/listers/apps/v1"
+	"k8s.io/client-go/tools/record"
+	"sigs.k8s.io/controller-runtime/pkg/client"
+	"sigs.k8s.io/controller-runtime/pkg/manager"
+	"sigs.k8s.io/controller-runtime/pkg/reconcile"
+)
+
+// Verification hooks (build tag `verif` only) for the suite `depctl`: thin exported
+// wrappers around the unexported reconciler constructor pieces and the watch wiring.
+// No behaviour of their own.
+
+// VerifNewReconcileDeployment builds the ReconcileDeployment exactly as newReconciler does,
+// but over the given controller-runtime client, typed clientset, recorder and listers.
+func VerifNewReconcileDeployment(c client.Client, cs clientset.Interface, recorder record.EventRecorder,
+	dLister appslisters.DeploymentLister, rsLister appslisters.ReplicaSetLister) *ReconcileDeployment {
+	factory := &controllerFactory{
+		client:        cs,
+		eventRecorder: recorder,
+		dLister:       dLister,
+		rsLister:      rsLister,
+	}
+	return &ReconcileDeployment{Client: c, controllerFactory: factory}
+}
+
+// VerifAdd registers the watches of the advanced deployment controller on mgr (the
+// unexported add): event sources, handlers and predicates are handed to mgr.SetFields.
+func VerifAdd(mgr manager.Manager, r reconcile.Reconciler) error {
+	return add(mgr, r)
+}
